@@ -1,5 +1,5 @@
 """C10 — compressed size is bounded and repetition is actually exploited (search parameters & contract)."""
-from mir import fmt, walk, strip_refs, norm
+from mir import callee_names, fmt, walk, strip_refs, norm
 from flow import enum_paths, PathLimit, cond_truth
 from lz import Encoder
 from binser import affine, fmt_affine
@@ -38,6 +38,7 @@ def run(facts, rep, ctx):
             rep.inconc(R1, fn + ": search call not identified")
             continue
         search_fns.add(enc.search["callee"])
+        match_kept_rule(rep, R4, enc, where)
         caps = enc.caps()
         if caps is None or caps["L"] is None or caps["W"] is None:
             rep.inconc(R1, "%s: look-ahead / window caps of the search call not recognised (%s)" % (name, None if caps is None else {k: caps[k] for k in ("L", "W")}))
@@ -129,6 +130,47 @@ def run(facts, rep, ctx):
         rep.inconc(R3, "the two encoders do not share one search function: %s" % sorted(search_fns))
         return
     search_contract(facts, rep, R3, facts.body(list(search_fns)[0]))
+
+
+def match_kept_rule(rep, R4, enc, where):
+    """What the search found is what gets encoded: the length (and displacement) that decide literal vs reference and
+    fill the token are the search call's own results.  A local that receives the result *and* some other value
+    (`length = 0` under a condition) lets a found match be thrown away."""
+    b = enc.body
+    search_bb = enc.search.get("bb")
+    dests = set()
+    for bb, t in b.calls():
+        if (callee_names(t)[1] or callee_names(t)[0] or "") == enc.search["callee"] and not t["dest"]["p"]:
+            dests.add(t["dest"]["l"])
+    if not dests:
+        return
+    over = None
+    for l in range(len(b.locals)):
+        ds = b.defs().get(l, [])
+        if len(ds) < 2:
+            continue
+        from_search = other = None
+        for (bi, si, kind, payload) in ds:
+            if kind != "assign":
+                other = other or (bi, "a call result")
+                continue
+            rv = payload["rv"]
+            pl = (rv.get("a") or {}).get("m") or (rv.get("a") or {}).get("c") if rv["k"] in ("use", "cast") else None
+            if pl is not None and pl["l"] in dests and pl["p"]:
+                from_search = (bi, pl["p"][0].get("f") if isinstance(pl["p"][0], dict) else None)
+            else:
+                t_ = b.term_of_rvalue(rv)
+                other = other or (bi, fmt(t_)[:30], payload.get("line"))
+        if from_search and other and from_search[1] in (0, 1):
+            loops = b.loops()
+            same_loop = any(from_search[0] in bl and other[0] in bl for bl in loops.values())
+            if same_loop:
+                over = (b.local_name(l) or "_%d" % l, "length" if from_search[1] == 0 else "displacement", other)
+    if over:
+        rep.violation(R4, b.name, "match-overwritten:" + over[0], "`%s` holds the search's %s but is also assigned %s inside the loop (line %s): a match that was found can be discarded or altered before it is encoded, so repetition the search sees is not exploited" % (
+            over[0], over[1], over[2][1], over[2][2] if len(over[2]) > 2 else "?"), where)
+    else:
+        rep.ok(R4, {"fn": b.name, "match": "the search's (length, displacement) reach the token unmodified"})
 
 
 def farthest_candidate(rep, R3, sb, outer, P, where):
